@@ -27,14 +27,14 @@ package main
 
 // excluded lists the types with JSON methods that are NOT checked, with the reason.
 var excluded = map[string]string{
-	"x509.Certificate / x509.JSONCertificate":          "one-way view: UnmarshalJSON is implemented to always return an error (documented)",
-	"ct.SignedCertificateTimestamp (both copies)":      "one-way view: MarshalJSON only, documented lossy (timestamp converted from ms to s, clamped)",
-	"x509.CertificatePoliciesData":                     "one-way view: MarshalJSON only (re-shapes parallel arrays into a list of policies)",
-	"x509.CertValidationLevel":                         "one-way view: MarshalJSON only",
-	"x509.QCStatementASN, x509.QCType":                 "one-way view: MarshalJSON only",
-	"mozilla.Entry":                                    "decode-only (UnmarshalJSON only): OneCRL input format, not a zcrypto encoding",
-	"x509.ECDSAPublicKeyJSON, DSAPublicKeyJSON, …":     "plain default-encoded auxiliary structs of the certificate view (no custom method, members are []byte/string/int); part of the one-way certificate JSON",
-	"x509.BasicConstraints, AuthorityInfoAccess, …":    "plain default-encoded structs not named by the statement",
+	"x509.Certificate / x509.JSONCertificate":              "one-way view: UnmarshalJSON is implemented to always return an error (documented)",
+	"ct.SignedCertificateTimestamp (both copies)":          "one-way view: MarshalJSON only, documented lossy (timestamp converted from ms to s, clamped)",
+	"x509.CertificatePoliciesData":                         "one-way view: MarshalJSON only (re-shapes parallel arrays into a list of policies)",
+	"x509.CertValidationLevel":                             "one-way view: MarshalJSON only",
+	"x509.QCStatementASN, x509.QCType":                     "one-way view: MarshalJSON only",
+	"mozilla.Entry":                                        "decode-only (UnmarshalJSON only): OneCRL input format, not a zcrypto encoding",
+	"x509.ECDSAPublicKeyJSON, DSAPublicKeyJSON, …":         "plain default-encoded auxiliary structs of the certificate view (no custom method, members are []byte/string/int); part of the one-way certificate JSON",
+	"x509.BasicConstraints, AuthorityInfoAccess, …":        "plain default-encoded structs not named by the statement",
 	"tls.ServerHandshake, Certificates, SimpleCertificate": "embed *x509.Certificate, whose decoder always errors (one-way)",
 }
 
